@@ -54,6 +54,29 @@ func checkC05(c *Ctx) {
 	c05TLV(c)
 	c05Headers(c)
 	c05Errors(c, "C05-K5", decodeClosure(c))
+	// "typed field equals the RFC reading" is about the value the caller keeps: the decoded message shares no memory with
+	// the datagram it was read from, so what the fields hold cannot change when the caller reuses its buffer (shared C08-K1,
+	// for the three top-level DHCPv6 decoders)
+	for _, nm := range []string{"FromBytes", "MessageFromBytes", "RelayMessageFromBytes"} {
+		if f := c.P.Func(modPath + "/dhcpv6." + nm); f != nil {
+			fnd := getE3(c).retentionFindings(f, 0)
+			bad := false
+			for _, x := range fnd {
+				bad = true
+				if strings.HasPrefix(x.short, "UNDECIDED") {
+					r.Undecided("C05-K13", "dhcpv6."+nm+": "+x.short, x.pos, x.detail)
+				} else {
+					r.Violation("C05-K13", "dhcpv6."+nm+": the decoded message aliases its input ("+x.short+")", x.pos, x.detail)
+				}
+			}
+			if !bad {
+				r.OK("C05-K13", "dhcpv6."+nm+": the decoded message shares no memory with its input", c.P.pos(f.Pos()), "E3: flows(Pd/Pr(input)) = ∅", "")
+			}
+		}
+	}
+	// the message under construction is filled by the decoder itself only (shared with C04-K9)
+	decoderKeepsResult(c, "C05-K12", c.P.Func(modPath+"/dhcpv6.MessageFromBytes"))
+	decoderKeepsResult(c, "C05-K12", c.P.Func(modPath+"/dhcpv6.RelayMessageFromBytes"))
 }
 
 // tilingSet: the functions judged by the tiling rule (delegation targets must be in it)
